@@ -102,7 +102,7 @@ def main(argv=None):
     rc = 0
     for k, (e, v) in known_hit.items():
         print(f"KNOWN-FINDING: property={pid} {e['what']} (seen {v['count']}x this run)")
-    rdir = os.path.join(VERIF, "replays", pid)
+    rdir = os.path.join(os.environ.get("VERIF_REPLAYS", os.path.join(VERIF, "replays")), pid)
     for v in unlisted:
         os.makedirs(rdir, exist_ok=True)
         h = hashlib.sha1(fp_key(v["fp"]).encode()).hexdigest()[:12]
